@@ -12,6 +12,7 @@ import (
 	"path/filepath"
 	"strings"
 	"sync"
+	"sync/atomic"
 	"time"
 )
 
@@ -27,6 +28,8 @@ var solvers = []solverDef{
 		return []string{"cvc5", fmt.Sprintf("--tlimit=%d", t*1000), "--produce-models", f}
 	}},
 }
+
+var scriptSeq int64
 
 type solveResult struct {
 	status string // unsat, sat, unknown
@@ -60,7 +63,7 @@ func runSolver(ctx context.Context, sd solverDef, file string, timeoutS int) sol
 // solveScript: stage 1 = z3-new with a short timeout; stage 2 = race all.
 func solveScript(dir, name, script string, timeoutS int) solveResult {
 	h := sha256.Sum256([]byte(script))
-	file := filepath.Join(dir, fmt.Sprintf("%x.smt2", h[:8]))
+	file := filepath.Join(dir, fmt.Sprintf("%x-%d.smt2", h[:8], atomic.AddInt64(&scriptSeq, 1)))
 	if err := os.WriteFile(file, []byte(script), 0o644); err != nil {
 		return solveResult{status: "unknown", out: err.Error()}
 	}
